@@ -135,6 +135,8 @@ impl Aml for Path {
                 sink.byte(DUALNAMEPREFIX);
             }
             n => {
+                // SegCount is a single byte
+                assert!(n <= 255);
                 sink.byte(MULTINAMEPREFIX);
                 sink.byte(n as u8);
             }
